@@ -1526,3 +1526,23 @@ def case_r8_dunder_methods_of_builtins():
     fmt = "[%s to %s]".__mod__
     return [fmt((1, 2)), "ab".__add__("c"), [1].__add__([2]), "ab".__mul__(2), "b".__lt__("c"), "abc".__getitem__(1),
             list(map("<%s>".__mod__, ["x", "y"])), "x".__ne__("x")]
+
+
+class _Perm(_enum.Flag):
+    R = _enum.auto()
+    W = _enum.auto()
+    X = _enum.auto()
+    RW = R | W
+    NONE = 0
+
+
+_FAMILY = _types.MappingProxyType({"read": _Perm.R, "write": _Perm.W, "all": _Perm.R | _Perm.W | _Perm.X})
+
+
+def case_r9_flag():
+    p = _Perm.R | _Perm.W
+    q = _FAMILY["read"]
+    q |= _Perm.X
+    return [_Perm.R in p, _Perm.X in p, p.value, p is _Perm.RW, p == _Perm.RW, p.name, bool(_Perm.NONE), bool(p & _Perm.X),
+            (p & _Perm.W).name, (p ^ _Perm.W).name, [m.name for m in _Perm], (~_Perm.R).value, q.value, (_Perm.R | _Perm.X).value,
+            _Perm.W.value, _Perm(4).name, _FAMILY["all"].value, _Perm.R in _FAMILY["all"], hash(_Perm.R) == hash(_Perm.R)]
